@@ -591,6 +591,9 @@ def builtin_call(ex, name, args, kwargs, st, node):
         if isinstance(x, ViewVal) and x.kind == "items":
             yield st, ViewVal("frozenitems", x.base)
             return
+        if isinstance(x, Val) and isinstance(x.t, (TSet, TSetV, TSeq, TList)):
+            yield from builtin_collect(ex, name, args, kwargs, st, node)
+            return
         raise Unsupported("frozenset of non-items")
     if name == "abs":
         x = args[0]
@@ -669,6 +672,19 @@ def builtin_call(ex, name, args, kwargs, st, node):
                 d, _ = decl.find_field(base.t.cls, attr)
                 if d is not None:
                     yield st, heapops.read_field(st.heap, base, attr)
+                    return
+                sub, ft = decl.find_field_down(base.t.cls, attr)
+                if sub is not None:
+                    # the attribute belongs to a declared subclass: present iff the object is an instance of it
+                    ok = heapops.is_instance_term(st.heap, base.v, sub.short)
+                    st_yes, st_no = st.copy(), st.copy()
+                    st_yes.pc.append(ok)
+                    yield st_yes, heapops.read_field(st_yes.heap, Val(TRef(sub.short), base.v), attr)
+                    st_no.pc.append(z3.Not(ok))
+                    dflt = args[2]
+                    if type(dflt).__name__ == "EmptyLit":
+                        dflt = ex.materialise_empty(dflt, ft, st_no)
+                    yield st_no, dflt
                     return
             if (isinstance(base.t, TOpaque) and base.t.tag == "Other") or isinstance(base.t, (TNum, TInt, TStr, TBool, TNone)):
                 if attr.startswith("_") and not attr.startswith("__"):
@@ -758,6 +774,13 @@ def builtin_collect(ex, name, args, kwargs, st, node):
             sv_ = Val(TSetV(dom[1].t.k), heapops.dict_dom(st.heap, dom[1]))
         elif dom[0] == "set":
             sv_ = dom[1]
+        elif dom[0] == "seq" and name in ("set", "frozenset"):
+            # set(sequence): the fresh set of exactly the elements that occur in the sequence
+            es = esort(dom[2])
+            arr = z3.Const(fresh_name("setof"), z3.ArraySort(es, z3.BoolSort()))
+            e = z3.Const(fresh_name("e"), es)
+            st.pc.append(z3.ForAll([e], z3.Select(arr, e) == z3.Contains(dom[1], z3.Unit(e)), patterns=[z3.Select(arr, e)]))
+            sv_ = Val(TSetV(dom[2]), arr)
         else:
             raise Unsupported(f"{name}() of {dom[0]}")
         if name in ("set", "frozenset"):
